@@ -182,8 +182,8 @@ def run(res, tier, sc, drv, ws):
         if st_ != "rejected":
             res.violation("compile_sources %s the ill-formed program %s" % ("accepts" if st_ == "ok" else "answers %s for" % st_, os.path.basename(fpath)),
                           {"property": "C06", "program": prog, "status": st_, "file": fpath})
-    gen_rows = {"contexts": len(GEN_CONTEXTS), "faults": len(GEN_FAULTS), "programs": 0, "rejected": 0, "contexts_accepted": 0}
-    for name, prog, must in generated_rejects():
+    gen_rows = {"contexts": len(GEN_CONTEXTS), "faults": len(GEN_FAULTS), "declaration_faults": len(DECL_FAULTS), "programs": 0, "rejected": 0, "contexts_accepted": 0}
+    for name, prog, must in generated_rejects() + declaration_rejects():
         st_ = compile_status(drv, sc, prog)
         gen_rows["programs"] += 1
         if must == "ok":
@@ -289,6 +289,87 @@ def generated_rejects():
             if fn in GEN_NEEDS_INT and cn in GEN_UNCONSTRAINED:
                 continue
             out.append(("%s@%s" % (fn, cn), GEN_PRELUDE + ctx.replace("HOLE", fault) + "\n", "rejected"))
+    return out
+
+
+# ---- declaration-level faults: (ill-formed program, well-formed twin).  The twin differs only in the repaired
+# declaration and must be accepted, so that the rejection is due to the fault and not to the surrounding program.
+DECL_MAIN = "class Main { function main(): unit = {  } }\n"
+DECL_FAULTS = {
+    "interface_method_missing": (
+        "interface I { method f(): int  method g(): int }\nclass C(val v: int) : I { method f(): int = this.v }\n",
+        "interface I { method f(): int  method g(): int }\nclass C(val v: int) : I { method f(): int = this.v  method g(): int = 1 }\n"),
+    "interface_method_wrong_return": (
+        "interface I { method f(): int }\nclass C(val v: int) : I { method f(): bool = true }\n",
+        "interface I { method f(): int }\nclass C(val v: int) : I { method f(): int = this.v }\n"),
+    "interface_method_wrong_parameter": (
+        "interface I { method f(a: int): int }\nclass C(val v: int) : I { method f(a: bool): int = this.v }\n",
+        "interface I { method f(a: int): int }\nclass C(val v: int) : I { method f(a: int): int = this.v + a }\n"),
+    "interface_function_for_method": (
+        "interface I { method f(): int }\nclass C(val v: int) : I { function f(): int = 1 }\n",
+        "interface I { method f(): int }\nclass C(val v: int) : I { method f(): int = 1 }\n"),
+    "second_interface_conflicts": (
+        "interface A { method id(): int }\ninterface B { method id(): bool }\nclass C(val v: int) : A, B { method id(): int = this.v }\n",
+        "interface A { method id(): int }\ninterface B { method other(): bool }\nclass C(val v: int) : A, B { method id(): int = this.v  method other(): bool = true }\n"),
+    "inherited_interface_conflicts": (
+        "interface A { method id(): int }\ninterface B { method id(): bool }\ninterface AB : A, B {}\nclass C(val v: int) : AB { method id(): int = this.v }\n",
+        "interface A { method id(): int }\ninterface B { method name(): bool }\ninterface AB : A, B {}\nclass C(val v: int) : AB { method id(): int = this.v  method name(): bool = true }\n"),
+    "generic_interface_instance_mismatch": (
+        "interface Box<T> { method get(): T }\nclass C(val v: int) : Box<bool> { method get(): int = this.v }\n",
+        "interface Box<T> { method get(): T }\nclass C(val v: int) : Box<int> { method get(): int = this.v }\n"),
+    "unknown_super_interface": (
+        "class C(val v: int) : Nowhere { method f(): int = 1 }\n",
+        "interface Nowhere { method f(): int }\nclass C(val v: int) : Nowhere { method f(): int = 1 }\n"),
+    "cyclic_interfaces": (
+        "interface A : B {}\ninterface B : A {}\n",
+        "interface A {}\ninterface B : A {}\n"),
+    "duplicate_class": (
+        "class D(val v: int) {}\nclass D(val w: int) {}\n",
+        "class D(val v: int) {}\nclass D2(val w: int) {}\n"),
+    "duplicate_member": (
+        "class D(val v: int) { method f(): int = 1  method f(): int = 2 }\n",
+        "class D(val v: int) { method f(): int = 1  method g(): int = 2 }\n"),
+    "duplicate_type_parameter": (
+        "class D { function <T, T> f(a: T): T = a }\n",
+        "class D { function <T, U> f(a: T): T = a }\n"),
+    "signature_type_argument_arity": (
+        "class G<T>(val t: T) {}\nclass D { function f(g: G<int, int>): int = 1 }\n",
+        "class G<T>(val t: T) {}\nclass D { function f(g: G<int>): int = 1 }\n"),
+    "signature_unknown_type": (
+        "class D { function f(g: Missing): int = 1 }\n",
+        "class D { function f(g: int): int = 1 }\n"),
+    "bound_unknown_type": (
+        "class D { function <T: Missing> f(a: T): int = 1 }\n",
+        "interface Missing {}\nclass D { function <T: Missing> f(a: T): int = 1 }\n"),
+    "return_type_vs_body": (
+        "class D { function f(): int = \"s\" }\n",
+        "class D { function f(): Str = \"s\" }\n"),
+    "this_in_function": (
+        "class D(val v: int) { function f(): int = this.v }\n",
+        "class D(val v: int) { method f(): int = this.v }\n"),
+    "private_method_from_other_class": (
+        "class D(val v: int) { private method f(): int = 1 }\nclass E { function g(d: D): int = d.f() }\n",
+        "class D(val v: int) { method f(): int = 1 }\nclass E { function g(d: D): int = d.f() }\n"),
+    "field_access_from_other_class_private_field": (
+        "class D(private val v: int) {}\nclass E { function g(d: D): int = d.v }\n",
+        "class D(val v: int) {}\nclass E { function g(d: D): int = d.v }\n"),
+    "member_named_like_struct_constructor": (
+        "class D(val a: int) { function init(): int = 1 }\n",
+        "class D(val a: int) { function make(): int = 1 }\n"),
+    "member_named_like_variant_constructor": (
+        "class D(A(int), B) { function A(): int = 1 }\n",
+        "class D(A(int), B) { function a(): int = 1 }\n"),
+    "class_bound_not_satisfied": (
+        "interface Cmp<T> { method cmp(o: T): int }\nclass G<T: Cmp<T>>(val t: T) {}\nclass P(val v: int) {}\nclass D { function f(g: G<P>): int = 1 }\n",
+        "interface Cmp<T> { method cmp(o: T): int }\nclass G<T: Cmp<T>>(val t: T) {}\nclass P(val v: int) : Cmp<P> { method cmp(o: P): int = 0 }\nclass D { function f(g: G<P>): int = 1 }\n"),
+}
+
+
+def declaration_rejects():
+    out = []
+    for name, (bad, good) in DECL_FAULTS.items():
+        out.append(("decl-twin:%s" % name, good + DECL_MAIN, "ok"))
+        out.append(("decl:%s" % name, bad + DECL_MAIN, "rejected"))
     return out
 
 
